@@ -5,7 +5,7 @@ For every entry: fresh scratch copy of the repository, the edit applied, `tools/
 private copy of lean/ (first failing theorem recorded), and — for mutations — `./check <property>` against the scratch
 copy (verdict line recorded).  Nothing in /repo or in this clone's lean/ is touched.
 
-usage: tools/tiea_mutations.py <workdir> [-j N] [--only id,id] [--no-check] [--round 2]
+usage: tools/tiea_mutations.py <workdir> [-j N] [--only id,id] [--no-check] [--round 2|3]
 """
 import argparse
 import json
@@ -148,7 +148,84 @@ EDITS2 = [
 ]
 
 
+# ---------------------------------------------------------------- round 3 (Props.TieA3, docs/TRANSLATOR.md)
+EDITS3 = [
+    ('M51', 'mutation', 'C06', E, '            if is_encoding_region(i, j):\n                row[j] ^= mask_pattern(i, j)',
+     '            if not is_encoding_region(i, j):\n                row[j] ^= mask_pattern(i, j)',
+     'apply_mask: the function patterns are masked instead of the encoding region'),
+    ('M52', 'mutation', 'C06', E, 'row[j] ^= mask_pattern(i, j)', 'row[j] ^= mask_pattern(j, i)',
+     'apply_mask: mask condition evaluated with row and column exchanged'),
+    ('M53', 'mutation', 'C06', E, 'return function_matrix[i][j] > 0x1', 'return function_matrix[i][j] >= 0x1',
+     'is_encoding_region: dark function modules count as encoding region'),
+    ('M54', 'mutation', 'C01', E, '        if not is_micro and right <= 6:\n            right -= 1',
+     '        if not is_micro and right < 6:\n            right -= 1',
+     'add_codewords: the column of the vertical timing pattern is not skipped'),
+    ('M55', 'mutation', 'C01', E, 'upwards = ((right + inc) & 2) == 0', 'upwards = ((right + inc) & 2) != 0',
+     'add_codewords: every column pair walked in the opposite direction'),
+    ('M56', 'mutation', 'C01', E, 'inc = 0 if version not in (consts.VERSION_M1, consts.VERSION_M3) else 2',
+     'inc = 0 if version not in (consts.VERSION_M1, consts.VERSION_M3) else 0',
+     'add_codewords: segno issue 36 regressed (M1 / M3 start in the wrong direction)'),
+    ('M57', 'mutation', 'C01', E, '                if row[j] == 0x2 and idx < codeword_length:', '                if row[j] != 0x1 and idx < codeword_length:',
+     'add_codewords: light function modules are overwritten'),
+    ('M58', 'mutation', 'C06', E, '        if is_better(score, best_score):', '        if not is_better(best_score, score):',
+     'find_and_apply_best_mask: the LAST of several equally good masks wins'),
+    ('M59', 'mutation', 'C06', E, '        best_score = -1\n        eval_mask = evaluate_micro_mask', '        best_score = -1\n        eval_mask = evaluate_mask',
+     'find_and_apply_best_mask: Micro QR Codes evaluated with the QR Code penalty rules'),
+    ('M60', 'mutation', 'C06', E, '        function_matrix[-8][8] = 0x1', '        function_matrix[-8][8] = 0x2',
+     'find_and_apply_best_mask: the dark module is masked'),
+    ('M61', 'mutation', 'C06', E, '        return fn1, fn4, fn6, fn7', '        return fn1, fn4, fn7, fn6',
+     'get_data_mask_functions: Micro QR patterns 10 and 11 exchanged'),
+    ('M62', 'mutation', 'C06', E, 'return (i // 2 + j // 3) & 0x1 == 0', 'return (i // 3 + j // 2) & 0x1 == 0',
+     'get_data_mask_functions.fn4: divisors exchanged'),
+    ('H55', 'harmless', 'C06', E, None, None, 'find_and_apply_best_mask: locals `best_score` / `mask_number` renamed to `top` / `number`'),
+    ('H56', 'harmless', 'C06', E, '    is_micro = width == height and width < 21\n    if is_micro:\n        # ISO/IEC 18004:2015(E) - 7.8.3.2',
+     '    is_micro = width < 21 and width == height\n    if is_micro:\n        # ISO/IEC 18004:2015(E) - 7.8.3.2',
+     'find_and_apply_best_mask: operands of `and` in `is_micro` exchanged'),
+    ('M63', 'mutation', 'C13', E, '        append_bits(consts.MODE_ECI, 4)', '        append_bits(consts.MODE_ECI, 8)',
+     'write_segment: ECI mode indicator written with 8 bits'),
+    ('M64', 'mutation', 'C13', E, '    elif ver > consts.VERSION_M1:  # Micro QR Code', '    elif ver >= consts.VERSION_M1:  # Micro QR Code',
+     'write_segment: M1 gets a mode indicator'),
+    ('M65', 'mutation', 'C07', E, '            subset = 1  # Indicator for GB2312 subset', '            subset = 0  # Indicator for GB2312 subset',
+     'write_segment: Hanzi subset indicator 0'),
+    ('M66', 'mutation', 'C13', E, '        for b in segment_data:\n            append_bits(b, 8)', '        for b in segment_data:\n            append_bits(b, 7)',
+     'make_segment: bytes written with 7 bits'),
+    ('M67', 'mutation', 'C13', E, 'append_bits(int(chunk), len(chunk) * 3 + 1)', 'append_bits(int(chunk), len(chunk) * 3 + 2)',
+     'make_segment: numeric groups one bit too long'),
+    ('M68', 'mutation', 'C13', E, 'append_bits(to_byte(chunk[0]) * 45 + to_byte(chunk[1]), 11)', 'append_bits(to_byte(chunk[0]) * 44 + to_byte(chunk[1]), 11)',
+     'make_segment: alphanumeric pairs weighted with 44'),
+    ('M69', 'mutation', 'C07', E, 'diff = code - 0x8140', 'diff = code - 0x8141',
+     'make_segment: kanji offset 0x8141 (branch NOT covered by make_segment_tie_partial)'),
+    ('H57', 'harmless', 'C13', E, None, None, 'write_segment: local `append_bits` renamed to `put`'),
+    ('H58', 'harmless', 'C13', E, None, None, 'make_segment: locals `buff` / `chunk` renamed to `out` / `part`'),
+    ('H51', 'harmless', 'C06', E, None, None, 'apply_mask: local `width_range` renamed to `cols`'),
+    ('H52', 'harmless', 'C01', E, None, None, 'add_codewords: locals `vertical` / `upwards` / `range_two` renamed to `vert` / `up` / `pair`'),
+    ('H53', 'harmless', 'C01', E, '        if not is_micro and right <= 6:\n            right -= 1',
+     '        if not is_micro and 6 >= right:\n            right -= 1', 'add_codewords: `right <= 6` written `6 >= right`'),
+    ('H54', 'harmless', 'C01', E, None, None, 'add_codewords: `idx = 0` moved below `range_two = range(2)` (independent assignments)'),
+]
+
+
 def special(eid, src):
+    if eid in ('H51', 'H52', 'H55', 'H57', 'H58'):
+        fn, pairs = {'H51': ('apply_mask', [('width_range', 'cols')]),
+                     'H57': ('write_segment', [('append_bits', 'put')]),
+                     'H58': ('make_segment', [('buff', 'out'), ('chunk', 'part')]),
+                     'H55': ('find_and_apply_best_mask', [('best_score', 'top'), ('mask_number', 'number')]),
+                     'H52': ('add_codewords', [('vertical', 'vert'), ('upwards', 'up'), ('range_two', 'pair')])}[eid]
+        a = src.index(f'def {fn}(')
+        b = src.index('\ndef ', a + 1)
+        body = src[a:b]
+        for x, y in pairs:
+            if eid == 'H57':     # the local, not the attribute of the same name
+                body = body.replace('append_bits = buff.append_bits', 'put = buff.append_bits').replace(' append_bits(', ' put(')
+            else:
+                body = re.sub(r'\b%s\b' % x, y, body)
+        return src[:a] + body + src[b:]
+    if eid == 'H54':
+        old1 = '    idx = 0  # Pointer to the current codeword\n'
+        old2 = '    range_two = range(2)\n'
+        assert src.count(old1) == 1 and src.count(old2) == 1, 'H54 anchors'
+        return src.replace(old1, '').replace(old2, old2 + old1)
     if eid in ('H21', 'H24', 'H26'):
         fn, pairs = {'H21': ('find_version', [('micro_allowed', 'allow_micro')]),
                      'H24': ('write_pad_codewords', [('pad_codewords', 'pads'), ('write', 'put')]),
@@ -244,11 +321,11 @@ def main():
     ap.add_argument('-j', type=int, default=4)
     ap.add_argument('--only')
     ap.add_argument('--no-check', action='store_true')
-    ap.add_argument('--round', type=int, default=1, help='1: Props.TieA (EDITS), 2: Props.TieA2 (EDITS2)')
+    ap.add_argument('--round', type=int, default=1, help='1: Props.TieA (EDITS), 2: Props.TieA2 (EDITS2), 3: Props.TieA3 (EDITS3)')
     a = ap.parse_args()
     global TARGET
-    TARGET = 'Props.TieA' if a.round == 1 else 'Props.TieA2'
-    edits = [e for e in (EDITS if a.round == 1 else EDITS2) if not a.only or e[0] in a.only.split(',')]
+    TARGET = {1: 'Props.TieA', 2: 'Props.TieA2', 3: 'Props.TieA3'}[a.round]
+    edits = [e for e in {1: EDITS, 2: EDITS2, 3: EDITS3}[a.round] if not a.only or e[0] in a.only.split(',')]
     os.makedirs(a.work, exist_ok=True)
     with ThreadPoolExecutor(a.j) as ex:
         results = list(ex.map(lambda e: one(e, a.work, not a.no_check), edits))
